@@ -110,6 +110,10 @@ func vfConnOutcome(err error, echoed string, want string) string {
 	if errors.As(err, &ne) {
 		return "writeerr"
 	}
+	if i := strings.Index(err.Error(), "tok_"); i >= 0 && want != "" && !strings.Contains(err.Error(), want) {
+		// an error that quotes ANOTHER request's token: this caller was handed somebody else's answer
+		return "garbled"
+	}
 	if strings.Contains(err.Error(), "EOF") || strings.Contains(err.Error(), "closed") {
 		return "closed"
 	}
@@ -220,6 +224,15 @@ func vfRunConnScenario(cfg vfConnScenarioCfg) (events []map[string]interface{}, 
 			time.Sleep(delay)
 			atomic.AddInt64(&nodeSent, 1)
 			tr.Emit("n_send", "stream", f.Stream, "tok", tok, "nconn", nc.ID, "late", 0)
+			if fate == "hsplit" {
+				// the response's HEADER arrives in two pieces, the gap longer than the driver's timeouts
+				fr := vfEncodeFrame(f.Version, 0, f.Stream, vfOpResult, vfSetKeyspaceBody(tok))
+				nmu.Lock()
+				k := 1 + nrng.Intn(vfHeaderLen(f.Version)-1)
+				nmu.Unlock()
+				nc.SendSplit(fr, k, driverTimeout+driverTimeout/2)
+				return
+			}
 			if fate == "split" {
 				// the response arrives in two pieces, the gap longer than the driver's read deadline
 				fr := vfEncodeFrame(f.Version, 0, f.Stream, vfOpResult, vfSetKeyspaceBody(tok))
@@ -229,6 +242,11 @@ func vfRunConnScenario(cfg vfConnScenarioCfg) (events []map[string]interface{}, 
 			if fate == "err" {
 				// a server ERROR frame (invalid query) carrying the token in its message
 				nc.Reply(f, vfOpError, vfErrorBody(0x2200, tok, nil))
+				return
+			}
+			if fate == "perr" {
+				// ... or a PROTOCOL_ERROR (0x000A) for this one request: it concerns this request only
+				nc.Reply(f, vfOpError, vfErrorBody(0x000A, tok, nil))
 				return
 			}
 			if isHB {
@@ -415,7 +433,7 @@ func vfRunConnScenario(cfg vfConnScenarioCfg) (events []map[string]interface{}, 
 				var re RequestError
 				if xerr == nil {
 					echoed = tok // (the answer's content is not visible at this level)
-				} else if errors.As(xerr, &re) && fate == "err" && strings.Contains(re.Message(), "tok_") {
+				} else if errors.As(xerr, &re) && (fate == "err" || fate == "perr") && strings.Contains(re.Message(), "tok_") {
 					msg := re.Message()
 					echoed, xerr = msg[strings.Index(msg, "tok_"):], nil
 				}
@@ -432,7 +450,7 @@ func vfRunConnScenario(cfg vfConnScenarioCfg) (events []map[string]interface{}, 
 					xerr = fmt.Errorf("vfgarbled: %w", perr)
 				} else if k, isKs := frame.(*resultKeyspaceFrame); isKs {
 					echoed = k.keyspace
-				} else if ef, isErr := frame.(error); isErr && fate == "err" && strings.Contains(ef.Error(), "tok_") {
+				} else if ef, isErr := frame.(error); isErr && (fate == "err" || fate == "perr") && strings.Contains(ef.Error(), "tok_") {
 					// the server's ERROR frame for this request: the token is in its message
 					msg := ef.Error()
 					echoed = msg[strings.Index(msg, "tok_"):]
@@ -510,14 +528,20 @@ func vfRunConnScenario(cfg vfConnScenarioCfg) (events []map[string]interface{}, 
 		// what the socket reports: a plain network error, or - as a net.Conn of a custom dialer that
 		// implements deadlines with contexts does - an error that is (or wraps) a context error
 		var werr error
-		switch cfg.ErrKind % 3 {
+		switch cfg.ErrKind % 4 {
+		case 3:
+			// the socket refuses the write deadline from that point on (nothing is written at all)
+			tr.Emit("env_failwrite", "at", int(off), "errkind", "SetWriteDeadline")
+			mc.SetFault(&vfWriteFault{FailAtByte: -1, StallAtByte: -1, DeadlineErr: vfNetErr{"vf: set write deadline: bad descriptor"}, DeadlineErrAtByte: off})
 		case 1:
 			werr = &net.OpError{Op: "write", Net: "tcp", Err: context.DeadlineExceeded}
 		case 2:
 			werr = fmt.Errorf("vf: tunnel write: %w", context.Canceled)
 		}
-		tr.Emit("env_failwrite", "at", int(off), "errkind", fmt.Sprintf("%T", werr))
-		mc.SetFault(&vfWriteFault{FailAtByte: off, StallAtByte: -1, Err: werr})
+		if cfg.ErrKind%4 != 3 {
+			tr.Emit("env_failwrite", "at", int(off), "errkind", fmt.Sprintf("%T", werr))
+			mc.SetFault(&vfWriteFault{FailAtByte: off, StallAtByte: -1, Err: werr})
+		}
 	}
 
 	// ---- callers
@@ -534,10 +558,14 @@ func vfRunConnScenario(cfg vfConnScenarioCfg) (events []map[string]interface{}, 
 					fate = "late"
 				case x < 25:
 					fate = "never"
-				case x < 45 && cfg.Kind == "midbody":
+				case x < 40 && cfg.Kind == "midbody":
 					fate = "split"
-				case x < 55 && cfg.Kind == "mixed":
+				case x < 55 && cfg.Kind == "midbody":
+					fate = "hsplit"
+				case x < 45 && cfg.Kind == "mixed":
 					fate = "err"
+				case x < 60 && cfg.Kind == "mixed":
+					fate = "perr"
 				case x < 40 && cfg.Kind == "badflag":
 					fate = "cflag"
 				case x < 65 && cfg.Kind == "wtimeout":
@@ -698,6 +726,9 @@ func TestVfConnStress(t *testing.T) {
 		if cfg.Kind == "writefail" {
 			nwf++
 			cfg.ErrKind = nwf
+			if cfg.ErrKind%4 == 3 {
+				cfg.Coalesce = true // the deadline is refused at flush time, with several writers queued
+			}
 		}
 		wg.Add(1)
 		sem <- struct{}{}
